@@ -77,11 +77,34 @@ type Def struct {
 	Lon0, DLon, LatMin, LatMax float64
 	A, Rf                      float64 // numeric ellipsoid when known (EllKind ab/arf)
 	BothDatum                  bool    // named datum and explicit towgs84 together
+	Spelling                   uint64  // non-zero: permuted clause order / irregular blanks
 }
 
-// String renders the PROJ.4 definition.
+// String renders the PROJ.4 definition. When Spelling is non-zero the clauses are
+// written in a permuted order with irregular blanks (the meaning of a PROJ.4 string does
+// not depend on either); the permutation is a fixed function of Spelling.
 func (d *Def) String() string {
-	return "+proj=" + d.Proj + d.Params + d.Ell + d.Datum + d.Units + d.PM + d.Extra + " +no_defs"
+	s := "+proj=" + d.Proj + d.Params + d.Ell + d.Datum + d.Units + d.PM + d.Extra + " +no_defs"
+	if d.Spelling == 0 || d.BothDatum {
+		return s
+	}
+	parts := strings.Split(s[1:], " +")
+	r := core.NewRand(d.Spelling)
+	for i := len(parts) - 1; i > 0; i-- {
+		j := r.Intn(i + 1)
+		parts[i], parts[j] = parts[j], parts[i]
+	}
+	var b strings.Builder
+	for i, p := range parts {
+		if i > 0 {
+			b.WriteString([]string{" ", "  ", " ", "   "}[r.Intn(4)])
+		}
+		if strings.HasPrefix(p, "k_0=") && r.Bool() {
+			p = "k=" + p[4:] // +k is an alias of +k_0
+		}
+		b.WriteString("+" + p)
+	}
+	return b.String()
 }
 
 // Geographic returns the geographic system on the same ellipsoid, datum and
@@ -427,6 +450,9 @@ func Gen(r *R, o *Options) *Def {
 		d.Lon0, d.DLon, d.LatMin, d.LatMax = 17.5, 5.5, 47, 51.5
 	}
 	GenEllDatum(r, d, o)
+	if r.Chance(0.2) {
+		d.Spelling = r.Uint64() | 1
+	}
 	if d.Proj == "utm" || d.Proj == "krovak" {
 		// the zone / the Krovak constants are tied to Greenwich longitudes
 		d.PM, d.PMDeg = "", 0
